@@ -46,10 +46,11 @@ def run_cases(cases, timeout=3000):
     # the signature certificate on the IMPLEMENTATION's document (accepted cases)
     sjobs = [i for i, parts in enumerate(parsed) if len(parts) >= 4]
     sres = pipe([MODEL, "sigdoc"], ["%s %s" % (parsed[i][0], parsed[i][1]) for i in sjobs], timeout=timeout) if sjobs else []
-    impl_sig = {i: (None if o.strip() == "2" else o.strip() == "1") for i, o in zip(sjobs, sres)}
+    impl_sig = {i: (None if o.split()[0] == "2" else o.split()[0] == "1") for i, o in zip(sjobs, sres)}
+    in_sc = {i: (o.split()[1] == "1") for i, o in zip(sjobs, sres) if len(o.split()) > 1}
     res = []
     for idx, (case, parts, m) in enumerate(zip(cases, parsed, model)):
-        d = {"case": case, "impl_sig": impl_sig.get(idx)}
+        d = {"case": case, "impl_sig": impl_sig.get(idx), "in_sc": in_sc.get(idx)}
         # the syntax kinds of the tree that was compared (coverage of the converters by the correspondence)
         d["kinds"] = sorted(set(int(x) for x in R_KIND.findall(parts[0]))) if parts and parts[0] else []
         if len(parts) >= 4:
